@@ -423,9 +423,7 @@ struct Lay {
 }
 impl Lay {
     fn put(&mut self, width: usize, kind: FK) {
-        if width > 0 || kind != FK::Body {
-            self.out.push(Field { off: self.off, width, kind, extent: false });
-        }
+        self.out.push(Field { off: self.off, width, kind, extent: false });
         self.off += width;
     }
     fn ext(&mut self, width: usize, kind: FK) {
@@ -1181,4 +1179,21 @@ pub fn families() -> Vec<Fam> {
             reenc: Some(|m, dst| enc(RawResponseMessageEncoder, routed_resp::<Vec<u8>>(m), dst)),
         },
     ]
+}
+
+/// Not a C10 family (the bare `RecognizerDecoder` has no framing; it is C09's subject): only for
+/// `--trace recognizer`, to tell a framing defect from a defect of the Recon stream parser below it.
+pub fn bare_recognizer_family() -> Fam {
+    Fam {
+        name: "recognizer",
+        group: "none",
+        raw_dec: false,
+        enc_raw: true,
+        enc_typed: false,
+        map_tags: OP_TAGS,
+        msgs: |m| arb_scalar_body(m).prop_map(Msg::Body).boxed(),
+        enc: |m, _typed, dst| dst.extend_from_slice(&bare::<Vec<u8>>(m)),
+        dec: || adapt(swimos_recon::parser::RecognizerDecoder::new(Value::make_recognizer()), from_bare::<Value>),
+        reenc: None,
+    }
 }
